@@ -19,6 +19,9 @@
   C05.R6  closures created in a loop / comprehension bind the loop's variables at creation time (late-binding lint)
   C05.R7  regex layers (conversion *and* rebuilt layer mapping) are resolved against the evaluable being judged: per evaluation a
           fresh matcher is built or the resolution runs unconditionally
+  C05.R1.READONLY (first numbered C05.R8)  the lowering and the judging only read the architecture (rules/c05_alias.py): no in-place mutation outside LayeredArchitecture has a receiver
+          that may be one of the per-layer lists (or the layer table) the architecture holds - followed by tag flow from the
+          architecture's fields through __getitem__ / LayerMapping.get_module_filters, fields, parameters and returns; copies drop the tag
 
 All rules anchor on public API (LayerRule / Rule fluent methods, RuleViolations fields via rules/tables.py, LayerMapping.
 get_layer_for_module_name / all_layers, ModuleNameConverter.convert, the filter and detector classes) and analyse *devirtualised
@@ -34,8 +37,9 @@ import ast
 from core.loader import FuncInfo, Repo, ancestors, header, norm, own_nodes, parent
 from core.report import Result
 
+from .c05_alias import check_architecture_untouched
 from .c05_detector import check_detector
-from .c05_lowering import check_are_named, check_delegation, check_filter_selection, check_layer_mapping_current, check_matcher_wiring
+from .c05_lowering import check_are_named, check_delegation, check_filter_selection, check_handoff_accumulates, check_layer_mapping_current, check_matcher_wiring
 from .c05_matcher import check_conversion_map_complete, check_layer_mapping_update, check_regex_resolution_per_evaluation
 from .c05_names import check_layer_lookup_names
 from .common import dotted, stmt_of, where
@@ -140,7 +144,8 @@ def run(repo: Repo) -> Result:
         "detector is built; (R3) reported 'other' dependencies and every decision on them use the same-layer-filtered set, and the filter "
         "drops nothing else; (R4) explicit pairs are grouped by the layer of the object-side module and a layer is satisfied by any "
         "realisation; (R5) the layer of a module is found by whole dotted components over all its ancestors; (R6) no closure created in a "
-        "loop reads a loop variable late; (R7) regex layers are resolved against the evaluable being judged."
+        "loop reads a loop variable late; (R7) regex layers are resolved against the evaluable being judged; (R8) nothing outside LayeredArchitecture "
+        "mutates in place a list or the table the architecture holds per layer (tag flow from the architecture's fields)."
     )
     res.not_decided = "verdicts over all partitions of modules into layers (needs the values of the graph searches); that the module filter built from a pair carries the pair's own identifier."
     res.trusted_base = ["C01 (module-rule dispatch the layer rule is lowered to)", "rules/tables.py bucket wiring", "engine inline views / guards"]
@@ -150,6 +155,9 @@ def run(repo: Repo) -> Result:
     check_layer_mapping_current(repo, res)
     receiver = check_are_named(repo, res)
     check_filter_selection(repo, res, receiver)
+    check_handoff_accumulates(repo, res, receiver)
+    # ---- R1.READONLY (a sub-rule of the lowering: what is handed to the wrapped rule must not alias the architecture's lists)
+    check_architecture_untouched(repo, res)
     # ---- R6
     lbs = late_binding_closures(repo)
     for f, lp, c, free in lbs:
